@@ -512,7 +512,10 @@ pub fn run_schedule(env: &WorkerEnv, sys: &System, opts: &RunOpts) -> Exec {
                 label = format!("{t}: server reads its client's next bytes");
             }
             Parked::WantInput => {
-                if let Some(piece) = (!s.pending_pieces.is_empty()).then(|| s.pending_pieces.remove(0)) {
+                if s.stdin.is_some() && !s.pending_pieces.is_empty() && stdin_unread(s.child.id()) > 0 {
+                    // bytes delivered earlier are still in the pipe: this read consumes them first
+                    label = format!("{t}: read buffered input");
+                } else if let Some(piece) = (!s.pending_pieces.is_empty()).then(|| s.pending_pieces.remove(0)) {
                     if let Some(w) = s.stdin.as_mut() {
                         let _ = w.write_all(&piece);
                         let _ = w.flush();
@@ -555,6 +558,10 @@ pub fn run_schedule(env: &WorkerEnv, sys: &System, opts: &RunOpts) -> Exec {
                     ex.ops.push(OpRec { client: t, op, expected, inv: step_no, resp: None, reply: None });
                     s.awaiting = Some(s.next_op);
                     s.next_op += 1;
+                } else if s.stdin.is_some() && stdin_unread(s.child.id()) > 0 {
+                    // bytes delivered earlier are still in the pipe (the server reads in smaller units than
+                    // they were sent in): this read just consumes them
+                    label = format!("{t}: read buffered input");
                 } else {
                     // nothing more to say (or the server reads while a reply is outstanding): close the stream
                     s.stdin = None;
@@ -662,6 +669,23 @@ pub fn run_schedule(env: &WorkerEnv, sys: &System, opts: &RunOpts) -> Exec {
 
 /// Wait until process `pid`'s main thread is blocked in read(2) on an EMPTY pipe (it has consumed
 /// everything sent to it and waits for more), or in wait4(2), or is gone.
+/// Unread bytes in the pipe that is process `pid`'s standard input.
+fn stdin_unread(pid: u32) -> i32 {
+    let c = std::ffi::CString::new(format!("/proc/{pid}/fd/0")).unwrap_or_default();
+    let h = unsafe { libc::open(c.as_ptr(), libc::O_RDONLY | libc::O_NONBLOCK) };
+    if h < 0 {
+        return 0;
+    }
+    let mut n: libc::c_int = 0;
+    let r = unsafe { libc::ioctl(h, libc::FIONREAD, &mut n) };
+    unsafe { libc::close(h) };
+    if r == 0 {
+        n
+    } else {
+        0
+    }
+}
+
 fn quiesce(pid: u32) {
     let start = std::time::Instant::now();
     loop {
